@@ -1141,6 +1141,17 @@ impl Monitor for C17 {
         c
     }
 
+    fn sidecar(&self, env: &Env) -> Vec<SidecarReport> {
+        // thorough: configuration -> one-liner / block YAML -> configuration on 16 x 150 generated
+        // configurations, interpreted by Miri (serde_yaml's unsafe-libyaml back end is the only
+        // hand-written unsafe code that handles document text)
+        if env.tier == Tier::Thorough {
+            vec![crate::miri::run_miri("C17", "config", 16, 150)]
+        } else {
+            vec![]
+        }
+    }
+
     fn shrink(&self, case: &C17Case) -> Vec<C17Case> {
         let mut v = vec![];
         if case.uses_doc() {
